@@ -96,6 +96,10 @@ CLAIMED.update({
             'the generator is called exactly once per iteration up to begin + count.',
             'Trusts loop exploration by typestate repetition; the probe iterator as the model of every input iterator.',
             'DESIGN.md section 6 C15'),
+    'C03': ('other', 'who-may-construct/destroy call-graph rule, self-cleaning loop rule, destroy-before-release and size-ordering typestates over LLVM IR',
+            'Necessary structural conditions of lifetime conservation on every path; segment arithmetic inside tail-split insertion is not decided.',
+            'Trusts the probe element types as the model of non-trivial elements; may-effect summaries.',
+            'DESIGN.md section 6 C03'),
 })
 
 NOT_APPLICABLE = {
